@@ -2,7 +2,7 @@
    MapProofs and WorldProofs; the Prop_Cxx.v files restate them and close them by [exact]. *)
 From stdpp Require Import gmap list.
 From Coq Require Import NArith Lia.
-From G Require Import Arith Monad Types Inv Raw RawProofs Map MapProofs IterProofs Cost Fill WorldProofs.
+From G Require Import Arith Monad Types Inv Raw RawProofs Map MapProofs IterProofs CloneProofs Cost Fill WorldProofs.
 Local Open Scope N_scope.
 
 (* every world reachable by a history of (so far: core) operations, from the empty world *)
@@ -16,7 +16,7 @@ Proof.
 Qed.
 
 Lemma reachable_slot c w i m : 0 < cR c -> reachable c w -> w_maps w !! i = Some m -> Inv (cR c) (cesz c) (m_rt m).
-Proof. intros HR Hr Hi. exact (proj1 (reachable_inv c w HR Hr i m Hi)). Qed.
+Proof. intros HR Hr Hi. exact (reachable_inv c w HR Hr i m Hi). Qed.
 
 (* ---------------------------------------------------------------- C01 *)
 
@@ -341,6 +341,117 @@ Lemma T_C09_unwind c w t p w' :
 Proof.
   intros HR HW Hc Hrun. pose proof (step_core c HR w t HW Hc) as H. rewrite Hrun in H. cbn [wres] in H.
   destruct H as [[_ [H _]]|[_ H]]; exact H.
+Qed.
+
+(* ---------------------------------------------------------------- C11 *)
+
+(* clone(): the new map holds exactly the source's pairs; the source is unchanged *)
+Lemma T_C11_clone c w t s d o w' :
+  0 < cR c -> WInv c w -> t_op t = OClone s d -> s <> d -> step c w t = Ok o w' ->
+  WInv c w' /\ exists m : gmap N elem, wabs w !! s = Some m /\ wabs w' !! d = Some m /\ wabs w' !! s = Some m /\
+    (forall i, i <> d -> wabs w' !! i = wabs w !! i).
+Proof.
+  intros HR HW Eop Hne Hrun. assert (Hc : core_op (t_op t)) by (rewrite Eop; exact I).
+  destruct (T_step_ok c w t o w' HR HW Hc Hrun) as [HW' Hs]. rewrite Eop in Hs. cbn [spec_rel] in Hs.
+  destruct Hs as (m & Hm & [[_ ->]|[Ho _]]).
+  - split; [exact HW'|]. exists m. split; [exact Hm|]. split; [apply lookup_insert|].
+    split; [rewrite lookup_insert_ne by congruence; exact Hm|]. intros i Hi. apply lookup_insert_ne. congruence.
+  - exfalso. (* an Ok outcome is not a panic *)
+    unfold step in Hrun. rewrite Eop in Hrun. destruct (w_maps w !! s) as [ms|]; [|discriminate].
+    destruct (negb _); [discriminate|]. destruct (rt_clone c _); [|discriminate|discriminate]. injection Hrun as <- _. discriminate.
+Qed.
+
+(* clone_from(): the destination's previous contents (both its tables) are gone, it holds
+   exactly the source's pairs, and it has adopted the source's hasher: lookups are lawful again *)
+Lemma T_C11_clone_from c w t d s o w' :
+  0 < cR c -> WInv c w -> t_op t = OCloneFrom d s -> s <> d -> step c w t = Ok o w' ->
+  WInv c w' /\ exists (m : gmap N elem) ms md', wabs w !! s = Some m /\ wabs w' !! d = Some m /\ wabs w' !! s = Some m /\
+    w_maps w !! s = Some ms /\ w_maps w' !! d = Some md' /\ m_hs md' = m_hs ms /\ m_filed md' = m_hs ms /\
+    (forall i, i <> d -> wabs w' !! i = wabs w !! i).
+Proof.
+  intros HR HW Eop Hne Hrun. assert (Hc : core_op (t_op t)) by (rewrite Eop; exact I).
+  destruct (T_step_ok c w t o w' HR HW Hc Hrun) as [HW' Hs]. rewrite Eop in Hs. cbn [spec_rel] in Hs.
+  unfold step in Hrun. rewrite Eop in Hrun.
+  destruct (w_maps w !! s) as [src|] eqn:Es; [|discriminate]. destruct (w_maps w !! d) as [dst|] eqn:Ed; [|discriminate].
+  destruct (negb _); [discriminate|]. destruct (rt_clone_from c _ _) as [a s1|p s1|f]; [|discriminate|discriminate].
+  injection Hrun as <- <-.
+  destruct Hs as (m & md & Hm & Hmd & [[_ Hw']|[Ho _]]); [|discriminate].
+  split; [exact HW'|]. exists m, src, (MS (s_rt s1) (m_hs src) (m_hs src)).
+  split; [exact Hm|]. rewrite Hw'. split; [apply lookup_insert|]. split; [rewrite lookup_insert_ne by congruence; exact Hm|].
+  split; [reflexivity|]. split; [unfold store; cbn [w_maps]; apply lookup_insert|]. split; [reflexivity|]. split; [reflexivity|].
+  intros i Hi. apply lookup_insert_ne. congruence.
+Qed.
+
+(* no operation on one map is observable through another: a call changes the contents of the
+   slots it names only *)
+Definition op_writes (o : op) : list N :=
+  match o with
+  | ONew s _ _ | OInsert s _ _ _ | OGet s _ _ _ | ORemove s _ _ | OClear s | OReserve s _ | OTryReserve s _
+  | OShrinkTo s _ | OIter s _ _ | ODrain s _ _ | OIntoIter s _ | ORetain s _ _ | ODrainFilter s _ _ _ _
+  | OExtend s _ _ | OFromIter s _ _ _ | ODrop s | OEntry s _ _ _ | ORawEntry s _ _ _ | ORawGet s _ _ => [s]
+  | OClone _ d | OCloneFrom d _ => [d]
+  | OEq a _ => [a]
+  end.
+
+Lemma T_C11_independent c w t o w' i :
+  0 < cR c -> WInv c w -> core_op (t_op t) -> step c w t = Ok o w' -> i ∉ op_writes (t_op t) ->
+  wabs w' !! i = wabs w !! i.
+Proof.
+  intros HR HW Hc Hrun Hi. destruct (T_step_ok c w t o w' HR HW Hc Hrun) as [_ Hs].
+  destruct (t_op t); cbn [core_op] in Hc; try contradiction; cbn [spec_rel op_writes] in *;
+    apply not_elem_of_cons in Hi as [Hi _].
+  - destruct Hs as [_ ->]. apply lookup_insert_ne. congruence.
+  - destruct Hs as (m & _ & [[_ ->]|[_ ->]]); [apply lookup_insert_ne; congruence|reflexivity].
+  - destruct Hs as (m & _ & _ & ->). apply lookup_insert_ne. congruence.
+  - destruct Hs as (m & _ & _ & ->). apply lookup_insert_ne. congruence.
+  - destruct Hs as (m & _ & _ & ->). apply lookup_insert_ne. congruence.
+  - destruct Hs as (m & _ & _ & ->). reflexivity.
+  - destruct Hs as (m & _ & _ & ->). reflexivity.
+  - destruct Hs as (m & _ & _ & ->). reflexivity.
+  - destruct Hs as (m & l & _ & _ & _ & _ & ->). apply lookup_insert_ne. congruence.
+  - destruct Hs as (m & l & _ & _ & _ & _ & ->). apply lookup_insert_ne. congruence.
+  - destruct Hs as (m & l & _ & _ & _ & _ & ->). apply lookup_delete_ne. congruence.
+  - destruct Hs as (m & l & _ & _ & _ & _ & ->). apply lookup_insert_ne. congruence.
+  - destruct Hs as (m & l & v1 & rest & m' & _ & _ & _ & _ & _ & _ & _ & ->). apply lookup_insert_ne. congruence.
+  - destruct Hs as (m & _ & [[_ ->]|[_ ->]]); [apply lookup_insert_ne; congruence|reflexivity].
+  - destruct Hs as (m & md & _ & _ & [[_ ->]|[_ [m' ->]]]); apply lookup_insert_ne; congruence.
+  - destruct Hs as (ma & mb & _ & _ & _ & ->). reflexivity.
+  - destruct Hs as [_ ->]. apply lookup_delete_ne. congruence.
+Qed.
+
+(* ---------------------------------------------------------------- C14 *)
+
+(* == is true exactly when both maps hold the same keys with equal values: whatever their
+   layout, history, capacity, resize phase or hasher *)
+Lemma T_C14_eq_iff c w t a b o w' :
+  0 < cR c -> WInv c w -> t_op t = OEq a b -> step c w t = Ok o w' ->
+  exists (ma mb : gmap N elem) bb, wabs w !! a = Some ma /\ wabs w !! b = Some mb /\ o = OutB bb /\
+    (bb = true <-> veq ma mb) /\ wabs w' = wabs w.
+Proof.
+  intros HR HW Eop Hrun. assert (Hc : core_op (t_op t)) by (rewrite Eop; exact I).
+  destruct (T_step_ok c w t o w' HR HW Hc Hrun) as [_ Hs]. rewrite Eop in Hs. cbn [spec_rel] in Hs.
+  destruct Hs as (ma & mb & Ha & Hb & (bb & -> & Hbb) & ->). exists ma, mb, bb. auto.
+Qed.
+
+Lemma T_C14_veq_equiv :
+  (forall a, veq a a) /\ (forall a b, veq a b -> veq b a) /\ (forall a b d, veq a b -> veq b d -> veq a d).
+Proof. unfold veq. repeat split; intros; congruence. Qed.
+
+(* false whenever some key or value differs *)
+Lemma T_C14_veq_differs a b k :
+  ev <$> a !! k <> ev <$> b !! k -> ~ veq a b.
+Proof. intros Hne Hv. apply Hne. apply Hv. Qed.
+
+(* lookups see the contents only: the result is a function of (contents !! k) *)
+Lemma T_C14_lookup_by_contents c w t s variant k wv o w' :
+  0 < cR c -> WInv c w -> t_op t = OGet s variant k wv -> step c w t = Ok o w' ->
+  exists m : gmap N elem, wabs w !! s = Some m /\ o = get_out (gvar_of variant) (m !! k).
+Proof.
+  intros HR HW Eop Hrun. unfold step in Hrun. rewrite Eop in Hrun. unfold with_slot_h, with_slot_gen in Hrun.
+  destruct (w_maps w !! s) as [ms|] eqn:Hs; [|discriminate]. destruct (_ && _); [discriminate|].
+  pose proof (map_get_spec c (gvar_of variant) k wv (load w ms (t_on t, t_tomb t) (t_perm t, t_qperm t)) (HW s ms Hs)) as Hg.
+  unfold wp in Hg. destruct (map_get _ _ _ _) as [x s1|p s1|f]; [|discriminate|discriminate].
+  injection Hrun as <- _. destruct Hg as (_ & Ho & _). exists (rt_abs (m_rt ms)). split; [apply wabs_lookup; exact Hs|exact Ho].
 Qed.
 
 (* ---------------------------------------------------------------- non-vacuity: a concrete
